@@ -91,6 +91,51 @@ func normalKind(kind string) string {
 	return kind
 }
 
+// counts around the powers of two where fixed-size buffers, narrow counters and chunked copies break
+var bigCounts = []int{63, 64, 65, 255, 256, 257, 1023, 1024, 1025, 2047, 2048, 2049}
+
+func ptsN(r *vproto.Rng, n int) []geom.Point {
+	p := make([]geom.Point, n)
+	for i := range p {
+		p[i] = geom.Point{X: float64(i), Y: coord(r)}
+	}
+	return p
+}
+
+// genBigGeom: one geometry with MANY vertices in a part, or MANY parts/rings (the ordinary generator stays below 7)
+func genBigGeom(r *vproto.Rng, kind string) geom.Geom {
+	n := bigCounts[r.Intn(len(bigCounts))]
+	manyParts := r.Intn(2) == 0
+	if manyParts {
+		n = []int{64, 65, 257, 258, 300}[r.Intn(5)]
+	}
+	switch kind {
+	case "gMP":
+		return geom.MultiPoint(ptsN(r, n))
+	case "gLS":
+		return geom.LineString(ptsN(r, n))
+	case "gMLS":
+		if manyParts {
+			m := make(geom.MultiLineString, n)
+			for i := range m {
+				m[i] = ptsN(r, r.Range(0, 3))
+			}
+			return m
+		}
+		return geom.MultiLineString{pts(r, 0, 3), ptsN(r, n), pts(r, 1, 3)}
+	case "gPG":
+		if manyParts {
+			m := make(geom.Polygon, n)
+			for i := range m {
+				m[i] = geom.Path(ptsN(r, r.Range(0, 4)))
+			}
+			return m
+		}
+		return geom.Polygon{geom.Path(ptsN(r, n)), ring(r)}
+	}
+	return nil
+}
+
 func genGeom(r *vproto.Rng, kind string) geom.Geom {
 	switch kind {
 	case "gP":
@@ -685,9 +730,19 @@ func genCase(r *vproto.Rng, tier string) fcase {
 
 	// ---- records
 	n := nrecs(r, tier)
+	bigAt := -1
+	staleCursor := false
+	if n > 0 && r.Intn(15) == 0 { // one record of the file carries a big geometry (followed and preceded by ordinary ones)
+		bigAt = r.Intn(n)
+	}
 	for i := 0; i < n; i++ {
 		var rc rec
 		rc.g = genGeom(r, kind)
+		if bigAt == i {
+			if bg := genBigGeom(r, kind); bg != nil {
+				rc.g = bg
+			}
+		}
 		if nullFile {
 			rc.g = nil
 		}
@@ -720,6 +775,20 @@ func genCase(r *vproto.Rng, tier string) fcase {
 		}
 		for j := 0; j < extra && nv == ncols; j++ {
 			rc.vals = append(rc.vals, genVal(r, colPlan{kind: []string{"i", "f", "s"}[r.Intn(3)], numText: true}, 10))
+		}
+		if staleCursor {
+			// after a record with left-over values the encoder's cursor is behind and every later cell is laid OVER an earlier
+			// row's text: a short exponent literal ("74e-5") gets the old text's digits appended to its exponent
+			// ("74e-50000000"), which strconv reads as 0 but the model's parser (C17 Dec: |scale| <= 5000) does not cover -
+			// keep exponent forms out of the overlaid rows (assumption "decimal literals with |exponent| <= 5000")
+			for j := range rc.vals {
+				if rc.vals[j].k == 's' {
+					rc.vals[j].s = strings.NewReplacer("e", "", "E", "").Replace(rc.vals[j].s)
+				}
+			}
+		}
+		if extra > 0 && nv == ncols {
+			staleCursor = true
 		}
 		c.recs = append(c.recs, rc)
 	}
@@ -837,6 +906,17 @@ func corpus() []fcase {
 		rf := spec{path: 'F', names: []string{"id", "name", "v"}}
 		out = append(out, fcase{w: ws, r: rd, recs: recs}, fcase{w: ws, r: rr, recs: recs}, fcase{w: ws, r: rf, recs: recs},
 			fcase{w: wf, r: rd, recs: recs}, fcase{w: wf, r: rr, recs: recs}, fcase{w: wf, r: rf, recs: recs})
+	}
+	// 7f. files with MANY records (row counters, chunked reads): 260 and 1100 points with an int and a short string column
+	for _, n := range []int{260, 1100} {
+		var recs []rec
+		for i := 0; i < n; i++ {
+			recs = append(recs, rec{P(float64(i), float64(-i)), []val{iv(i), sv(fmt.Sprintf("r%d", i))}})
+		}
+		ws := spec{path: 'S', sf: []sfield{{"G", "", "gP"}, {"ID", "", "i"}, {"Name", "", "s"}}}
+		wf := spec{path: 'F', shpTyp: 1, ff: []ffield{{"ID", 'N', 10, 0}, {"Name", 'C', 8, 0}}}
+		out = append(out, fcase{w: ws, r: spec{path: 'S', reuse: true, sf: ws.sf}, recs: recs},
+			fcase{w: wf, r: spec{path: 'F', names: []string{"id", "name"}}, recs: recs})
 	}
 	// 7d. writer schedules: Encode and EncodeFields mixed on one NewEncoder encoder share the row cursor
 	{
